@@ -551,6 +551,8 @@ def check_c19(prop, tier, replay, selftest):
     res.add_mc(require_mc(tlc_mc("Frontend", "Frontend.cfg", workers=8, timeout=600)))
     if tier == "thorough":
         res.add_mc(require_mc(tlc_mc("Frontend", "Frontend_9.cfg", workers=12, timeout=2400)))
+    # unbounded: TLAPS proves PrefixInv /\ FoundRule inductive for any stream length and interleaving (same Frontend.tla)
+    res.extra["tlaps"] = tlaps_proof("FrontendProof")
     tr = tlc_trace("Trace_Frontend", out)
     res.add_trace(tr)
     seen = set()
@@ -580,7 +582,7 @@ def check_c19(prop, tier, replay, selftest):
                 "both a poll answered not-found and one answered found for a streamed node")
     res.samples = [dict(json.loads(l), steps=json.loads(l)["steps"][:4]) for l in tr["lines"][5000:5002] or tr["lines"][:1]]
     res.extra["drift_count"] = len(res.drift)
-    res.assumptions = ["TLC evaluates Frontend correctly", "in scheduled mode producer progress is played by forwarding the producer's own messages one at a time (the producer's table at cut k is the prefix of its final table: append-only, C07)",
+    res.assumptions = ["TLC evaluates Frontend correctly", "tlapm and its back ends (SMT, Zenon, Isabelle, PTL) are sound for FrontendProof", "in scheduled mode producer progress is played by forwarding the producer's own messages one at a time (the producer's table at cut k is the prefix of its final table: append-only, C07)",
                        "in threads mode no cross-thread order is inferred; each observer's tables are judged against the producer's final table"]
     return res.finish()
 
